@@ -114,6 +114,36 @@ def iface(repo, w):
     expect_in_order("cache_interface::rise", body, [r"^if\(nocache\(\)\)return;cache_module_->rise\(t\);$"])
 
 
+def pool(repo, w):
+    """src/cache_pool.cpp: how the settings become the arguments of thread_cache_factory / process_cache_factory"""
+    src = strip_hooks(strip_c_comments(open(os.path.join(repo, "src/cache_pool.cpp")).read()))
+    body = squeeze(function_body(src, r"cache_pool::cache_pool\s*\(\s*json::value\s+const\s*&\s*settings\s*\)\s*:\s*d\(new\s+_data\(\)\)\s*\{"))
+    if not re.search(r'^std::stringtype=settings\.get\("cache\.backend","none"\);', body):
+        raise Untranslatable("cache_pool: cache.backend")
+    sentinel = r'(?:if\(!items\)items=(\d+);|if\(items==0\)items=(\d+);)?'
+    mt = re.search(r'if\(type=="thread_shared"\)\{if\(settings\.get\("service\.worker_processes",0\)>1\)throwcppcms_error\(.*?\);'
+                   r'unsigneditems=settings\.get\("cache\.limit",(\d+)\);' + sentinel + r'd->module=impl::thread_cache_factory\(items\);\}', body)
+    if not mt:
+        raise Untranslatable("cache_pool: thread_shared branch (cache.limit -> thread_cache_factory)")
+    def lim(dflt, s1, s2):
+        k = s1 or s2
+        return f"let items := configured.getD {dflt}; if items = 0 then {k} else items" if k else f"configured.getD {dflt}"
+    w("\n/-- `cache_pool`: `cache.limit` (absent = `none`) -> argument of `thread_cache_factory` -/")
+    w(f"def poolThreadLimit (configured : Option Nat) : Nat := {lim(mt.group(1), mt.group(2), mt.group(3))}")
+    mp = re.search(r'elseif\(type=="process_shared"\)\{#ifdefined\(CPPCMS_WIN32\)throwcppcms_error\("[^"]*"\);#elifdefined\(CPPCMS_NO_PREFOK_CACHE\)throwcppcms_error\("[^"]*"\);#elsesize_tmemory=settings\.get\("cache\.memory",(\d+)\);if\(memory<(\d+)\)throwcppcms_error\(.*?\);'
+                   r'unsigneditems=settings\.get\("cache\.limit",memory\);' + sentinel + r'd->module=impl::process_cache_factory\(memory\*(\d+),items\);#endif\}', body)
+    if not mp:
+        raise Untranslatable("cache_pool: process_shared branch (cache.memory, cache.limit -> process_cache_factory)")
+    w("/-- `cache.memory` in KiB (absent = `none`), its minimum, and the bytes / limit handed to `process_cache_factory` -/")
+    w(f"def poolProcessMemoryKB (cfgMem : Option Nat) : Nat := cfgMem.getD {mp.group(1)}")
+    w(f"def poolProcessMinMemoryKB : Nat := {mp.group(2)}")
+    w(f"def poolProcessBytes (cfgMem : Option Nat) : Nat := poolProcessMemoryKB cfgMem * {mp.group(5)}")
+    k = mp.group(3) or mp.group(4)
+    inner = "configured.getD (poolProcessMemoryKB cfgMem)"
+    w("def poolProcessLimit (configured cfgMem : Option Nat) : Nat := " +
+      (f"let items := {inner}; if items = 0 then {k} else items" if k else inner))
+
+
 def main(repo, lean, cache_only=False):
     src = strip_hooks(strip_c_comments(open(os.path.join(repo, "src/cache_storage.cpp")).read()))
     o = []
@@ -271,14 +301,19 @@ def main(repo, lean, cache_only=False):
         tmp = []
         try:
             iface(repo, tmp.append)
+            pool(repo, tmp.append)
             o.extend(tmp)
         except Untranslatable:
             old = open(path).read() if os.path.exists(path) else ""
-            for name, dflt in (("ifaceInfty : Int", "0"), ("pagePrefixGzip : List UInt8", "[]"), ("pagePrefixPlain : List UInt8", "[]")):
+            for name, dflt in (("ifaceInfty : Int", "0"), ("pagePrefixGzip : List UInt8", "[]"), ("pagePrefixPlain : List UInt8", "[]"),
+                               ("poolThreadLimit (configured : Option Nat) : Nat", "0"), ("poolProcessMemoryKB (cfgMem : Option Nat) : Nat", "0"),
+                               ("poolProcessMinMemoryKB : Nat", "0"), ("poolProcessBytes (cfgMem : Option Nat) : Nat", "0"),
+                               ("poolProcessLimit (configured cfgMem : Option Nat) : Nat", "0")):
                 m = re.search(r"^def " + re.escape(name) + r" := .*$", old, re.M)
                 w(m.group(0) if m else f"def {name} := {dflt}")
     else:
         iface(repo, w)
+        pool(repo, w)
     w("\nend Cppcms.C07.Gen")
     write_if_changed(path, "\n".join(o) + "\n")
     print(path)
